@@ -920,6 +920,12 @@ func verifyFunc(w *World, sp *Specs, fn *ssa.Function, spec *FuncSpec, safety bo
 	// a caller-side assertion that was never generated (its call no longer occurs, or nowhere with the named locals in scope)
 	// must not disappear silently
 	if spec != nil {
+		for _, c := range spec.UpdAsserts {
+			if !x.atcallApplied["upd:"+c.Label] {
+				x.obligs = append(x.obligs, &Oblig{Name: x.key + "#atcall:" + c.Label, Func: x.key, Kind: "atcall", Hyps: nil, Goal: tFalse,
+					Desc: "no map update at which this assertion applies occurs on any explored path: " + c.Src})
+			}
+		}
 		for _, ca := range spec.CallAsserts {
 			if ca.C.Label != "" && !x.atcallApplied[ca.C.Label] {
 				x.obligs = append(x.obligs, &Oblig{Name: x.key + "#atcall:" + ca.C.Label, Func: x.key, Kind: "atcall", Hyps: nil, Goal: tFalse,
